@@ -273,12 +273,16 @@ package repository
 //@   trusted
 //@   modifies nothing
 //@ func (*GoGitRepo).AllClocks
-//@   props C18
+//@   props C18 C05 C08
 //@   opt locks
+// (C05, C08: identity versions are stamped with the time of every clock of the repository) every clock that has a
+// file is in the answer - the ones just loaded from disk as well as the ones already open
+//@   check [every-clock-file-is-answered] result1 == nil && result != nil ==> (forall k int :: { files[k] } 0 <= k && k < len(files) ==> (files[k].Name() in result))
 //@   requires [not-held@locks] repo != nil && !sync.mheld[&repo.clocksMutex]
 //@   ensures [lock-balanced] forall m *sync.Mutex :: { sync.mheld[m] } sync.mheld[m] == old(sync.mheld[m])
 //@   loop 1
 //@     invariant sync.mheld[&repo.clocksMutex] && (forall m *sync.Mutex :: { sync.mheld[m] } m != &repo.clocksMutex ==> sync.mheld[m] == old(sync.mheld[m]))
+//@     invariant result != nil && fresh(result) && (forall k int :: { files[k] } 0 <= k && k <= rangeindex ==> (files[k].Name() in result))
 
 // Writing a tree (C15: every object written is a well-formed git object): one entry per entry given, with the mode
 // of its kind, in the order git requires - by name, a directory comparing as if its name ended in "/" (git fsck
